@@ -513,7 +513,7 @@ class Engine:
         if isinstance(goal, bool):
             goal = z3.BoolVal(goal)
         self.vcs.append(VC(self.cur.key if self.cur else "?", kind, label, list(st.pc), goal,
-                           getattr(node, "lineno", 0), clause))
+                           getattr(node, "lineno", 0) or getattr(self, "cur_line", 0), clause))
 
     def oblige_clauses(self, kind, prefix, st, clauses, node=None):
         for label, f in normalize_clauses(clauses):
@@ -522,7 +522,7 @@ class Engine:
     def canary(self, label, st, node=None):
         self.canaries += 1
         self.vcs.append(VC(self.cur.key, "canary", label, list(st.pc), z3.BoolVal(False),
-                           getattr(node, "lineno", 0)))
+                           getattr(node, "lineno", 0) or getattr(self, "cur_line", 0)))
 
     # -- truthiness / coercions ---------------------------------------------------
     def truth(self, v):
@@ -1016,6 +1016,7 @@ class Engine:
         if not stmts:
             return k(st)
         s0, rest = stmts[0], stmts[1:]
+        self.cur_line = s0.lineno
         m = getattr(self, "ex_" + type(s0).__name__, None)
         if m is None:
             raise Unsupported(f"statement {type(s0).__name__} at line {s0.lineno}")
